@@ -585,6 +585,86 @@ theorem point_dispatch (s : Sys K) (pos : Option (V3 K)) (ptd : Option Int) (p d
   · simp [point]
   · intro t h1 h2 h3 h4; simp [point, h1, h2, h3, h4]
 
+/-! ### the tolerance argument, symbols and masses -/
+
+/-- **`atol=None` and only `None` means the default.**  An explicit tolerance — `0`, negative, tiny —
+    is used as given by every generator. -/
+theorem atol_resolution (d a : K) (s : Sys K) (pos : Option (V3 K)) (ptd : Option Int) (p db : V3 K) (scale : Bool)
+    (kw : Kw K) :
+    vacancyC d s pos ptd scale none = vacancy s pos ptd scale d ∧
+    vacancyC d s pos ptd scale (some a) = vacancy s pos ptd scale a ∧
+    interstitialC d s p scale none kw = interstitial s p scale d kw ∧
+    interstitialC d s p scale (some a) kw = interstitial s p scale a kw ∧
+    substitutionalC d s pos ptd scale none kw = substitutional s pos ptd scale d kw ∧
+    substitutionalC d s pos ptd scale (some a) kw = substitutional s pos ptd scale a kw ∧
+    dumbbellC d s pos ptd db scale none kw = dumbbell s pos ptd db scale d kw ∧
+    dumbbellC d s pos ptd db scale (some a) kw = dumbbell s pos ptd db scale a kw :=
+  ⟨rfl, rfl, rfl, rfl, rfl, rfl, rfl, rfl⟩
+
+/-- the dispatcher hands the tolerance on unchanged: through `point` the same default rule holds for
+    every defect type. -/
+theorem point_atol_passthrough (d : K) (s : Sys K) (t : String) (pos : Option (V3 K)) (ptd : Option Int)
+    (db : Option (V3 K)) (scale : Bool) (atol : Option K) (kw : Kw K) :
+    pointC d s t pos ptd db scale atol kw = point s t pos ptd db scale (effAtol d atol) kw := by
+  unfold pointC point vacancyC interstitialC substitutionalC dumbbellC
+  rfl
+
+/-- every accepted insertion builds its result as `System(box, pbc, atoms, symbols, masses)` of the
+    input's symbols and masses. -/
+theorem apply_fixSym (s s' : Sys K) (op : Op K) (h : op.apply s = .ok s') :
+    ∃ t : Sys K, s' = fixSym t ∧ t.nsym = s.nsym ∧ t.masses = s.masses := by
+  cases op with
+  | vac pos ptd scale atol =>
+    simp only [Op.apply, vacancy] at h
+    split at h
+    · cases h
+    · simp only [vacancyAt] at h
+      split at h
+      · cases h
+      · injection h with h; exact ⟨_, h.symm, rfl, rfl⟩
+  | int pos scale atol kw =>
+    simp only [Op.apply, interstitial] at h
+    split at h
+    · simp only [interstitialAt] at h
+      split at h
+      · cases h
+      · injection h with h; exact ⟨_, h.symm, rfl, rfl⟩
+    · cases h
+  | sub pos ptd scale atol kw =>
+    simp only [Op.apply, substitutional] at h
+    split at h
+    · cases h
+    · simp only [substitutionalAt] at h
+      split at h
+      · cases h
+      · split at h
+        · cases h
+        · injection h with h; exact ⟨_, h.symm, rfl, rfl⟩
+  | db pos ptd dbv scale atol kw =>
+    simp only [Op.apply, dumbbell] at h
+    split at h
+    · cases h
+    · simp only [dumbbellAt] at h
+      split at h
+      · cases h
+      · injection h with h; exact ⟨_, h.symm, rfl, rfl⟩
+
+/-- **symbols and masses survive.** The result has at least the input's symbols, enough of them for
+    every atom type present (a new type pads with `None`), and the input's per-type masses, entry by
+    entry, padded with `None` up to the number of symbols. -/
+theorem symbols_masses_kept (s s' : Sys K) (op : Op K) (h : op.apply s = .ok s') :
+    s.nsym ≤ s'.nsym ∧ (maxAtype s'.atoms).toNat ≤ s'.nsym ∧
+    s'.masses = padNone s.masses s'.nsym ∧
+    (∀ i, i < s.masses.length → s'.masses[i]? = s.masses[i]?) := by
+  obtain ⟨t, rfl, hn, hm⟩ := apply_fixSym s s' op h
+  refine ⟨?_, ?_, ?_, ?_⟩
+  · simp only [fixSym, hn]; exact Nat.le_max_left _ _
+  · simp only [fixSym]; exact Nat.le_max_right _ _
+  · simp only [fixSym, hm]
+  · intro i hi
+    simp only [fixSym, hm, padNone]
+    rw [List.getElem?_append_left hi]
+
 /-- The model is functional: a generator is a pure function of the input system, so the input is
     unchanged *by construction* (this theorem is `rfl`; it is listed for completeness of the
     property's clause list).  On the implementation the clause is checked by snapshot and
@@ -659,6 +739,68 @@ theorem pos_eq_index_relative (s : Sys K) (i : Nat) (a : Atom K) (r : V3 K) (ato
     (by simpa [toCart] using huniq)
   rw [h1, h2]
 
+/-! ### the tolerance: closed ball, monotone, zero and negative tolerances are exact matches -/
+
+theorem dist2_nonneg (s : Sys K) (p : V3 K) (a : Atom K) : 0 ≤ dist2 s p a := normSq_nonneg _
+
+/-- `np.isclose(dist, 0, atol)` on squares: an exact hit, or a non-negative tolerance whose closed
+    ball contains the position. -/
+theorem within_iff (s : Sys K) (p : V3 K) (atol : K) (a : Atom K) :
+    within s p atol a = true ↔ dist2 s p a = 0 ∨ (0 ≤ atol ∧ dist2 s p a ≤ atol * atol) := by
+  simp only [within, Bool.or_eq_true, Bool.and_eq_true, decide_eq_true_eq, Bool.not_eq_true',
+    decide_eq_false_iff_not, not_lt]
+
+/-- the boundary belongs to the tolerance: `|d| = atol` is a match. -/
+theorem within_tie (s : Sys K) (p : V3 K) (atol : K) (a : Atom K) (h0 : 0 ≤ atol)
+    (h : dist2 s p a = atol * atol) : within s p atol a = true :=
+  (within_iff s p atol a).mpr (Or.inr ⟨h0, le_of_eq h⟩)
+
+/-- with `atol = 0` (or any negative tolerance) only an exact hit matches: no default sneaks in. -/
+theorem within_zero_tol (s : Sys K) (p : V3 K) (atol : K) (a : Atom K) (h : atol ≤ 0) :
+    within s p atol a = true ↔ dist2 s p a = 0 := by
+  rw [within_iff]
+  constructor
+  · rintro (h0 | ⟨h1, h2⟩)
+    · exact h0
+    · have : atol = 0 := le_antisymm h h1
+      subst this
+      exact le_antisymm (by simpa using h2) (dist2_nonneg s p a)
+  · intro h0; exact Or.inl h0
+
+/-- a larger tolerance matches at least the same atoms. -/
+theorem within_mono (s : Sys K) (p : V3 K) (t t' : K) (a : Atom K) (h0 : 0 ≤ t) (h : t ≤ t')
+    (hw : within s p t a = true) : within s p t' a = true := by
+  rw [within_iff] at hw ⊢
+  rcases hw with h1 | ⟨_, h2⟩
+  · exact Or.inl h1
+  · exact Or.inr ⟨le_trans h0 h, le_trans h2 (mul_self_le_mul_self h0 h)⟩
+
+/-- **zero tolerance refuses every position that is not exactly an atom** (the absent-site clause at
+    the boundary value of the tolerance), for a direct call and through the dispatcher; and an
+    interstitial there is not "occupied". -/
+theorem zero_tol_offsite (d : K) (s : Sys K) (p : V3 K) (scale : Bool) (kw : Kw K) (db : V3 K)
+    (h : ∀ (j : Nat) b, s.atoms[j]? = some b → dist2 s (toCart s scale p) b ≠ 0) :
+    vacancyC d s (some p) none scale (some 0) = .error .value ∧
+    substitutionalC d s (some p) none scale (some 0) kw = .error .value ∧
+    dumbbellC d s (some p) none db scale (some 0) kw = .error .value ∧
+    pointC d s "v" (some p) none none scale (some 0) {} = .error .value ∧
+    interstitialC d s p scale (some 0) kw = interstitialAt s (toCart s scale p) kw := by
+  have hw : ∀ (j : Nat) b, s.atoms[j]? = some b → within s (toCart s scale p) 0 b = false := by
+    intro j b hb
+    cases hc : within s (toCart s scale p) 0 b with
+    | false => rfl
+    | true => exact absurd ((within_zero_tol s _ 0 b (le_refl _)).mp hc) (h j b hb)
+  have hr := refuse_absent_site s p scale 0 hw
+  have hm : siteMatches s (toCart s scale p) 0 = [] := by
+    apply filter_range_eq_nil
+    intro j hj
+    have hb : s.atoms[j]? = some s.atoms[j] := List.getElem?_eq_getElem hj
+    simp [hb, hw j _ hb]
+  obtain ⟨h1, h2, h3⟩ := refusals_propagate s (some p) none scale 0 .value hr kw db
+  refine ⟨h1, h2, h3, ?_, ?_⟩
+  · rw [point_atol_passthrough]; simp [point, Kw.isEmpty, effAtol, h1]
+  · simp [interstitialC, effAtol, interstitial, hm]
+
 end field
 
 /-! ### non-vacuity: concrete runs of the model at `K := Rat` -/
@@ -666,7 +808,7 @@ end field
 /-- cubic cell of edge 4 at origin (1,0,0), periodic along x and y only, two atoms, one extra property. -/
 def exSys : Sys Rat :=
   { box := ⟨⟨⟨4, 0, 0⟩, ⟨0, 4, 0⟩, ⟨0, 0, 4⟩⟩, ⟨1, 0, 0⟩⟩, pbc := (true, true, false), nsym := 2,
-    keys := ["charge"],
+    masses := [some 27, none], keys := ["charge"],
     atoms := [{ atype := 1, pos := ⟨1, 0, 0⟩, props := [[1/2]] }, { atype := 2, pos := ⟨3, 2, 2⟩, props := [[3/2]] }],
     old := none }
 
@@ -687,7 +829,7 @@ example : substitutional exSys none (some 0) false (1/100) {} = .error .value :=
 example : interstitial exSys ⟨1/4, 1/2, 1/2⟩ true (1/100) { atype := some 3 } =
     .ok { exSys with
           atoms := exSys.atoms ++ [{ atype := 3, pos := ⟨2, 2, 2⟩, props := [[0]] }],
-          old := some [0, 1, 2], nsym := 3 } := by decide +kernel
+          old := some [0, 1, 2], nsym := 3, masses := [some 27, none, none] } := by decide +kernel
 example : dumbbell exSys none (some 0) ⟨1/8, 0, 0⟩ true (1/100) { extra := [("charge", [7])] } =
     .ok { exSys with
           atoms := [{ atype := 2, pos := ⟨3, 2, 2⟩, props := [[3/2]] },
@@ -699,6 +841,21 @@ example : (run exSys (idProv exSys) [.vac none (some 0) false (1/100), .int ⟨1
     = [some 1, none] := by decide +kernel
 example : (run exSys (idProv exSys) [.vac none (some 0) false (1/100), .int ⟨1/4, 1/4, 1/4⟩ true (1/100) {}]).1.old
     = some [1, 2] := by decide +kernel
+
+-- the tolerance argument: atom 0 is at (1,0,0); the position 1/128 off it is found with the default
+-- (None), refused with an explicit 0 and with 1/256, found with exactly 1/128 (tie) — directly and
+-- through the dispatcher, also through the periodic image one cell along -x
+example : vacancyC (1/100) exSys (some ⟨1 + 1/128, 0, 0⟩) none false none = vacancy exSys none (some 0) false 0 := by decide +kernel
+example : vacancyC (1/100) exSys (some ⟨1 + 1/128, 0, 0⟩) none false (some 0) = .error .value := by decide +kernel
+example : vacancyC (1/100) exSys (some ⟨1 + 1/128, 0, 0⟩) none false (some (1/256)) = .error .value := by decide +kernel
+example : vacancyC (1/100) exSys (some ⟨1 + 1/128, 0, 0⟩) none false (some (1/128)) = vacancy exSys none (some 0) false 0 := by decide +kernel
+example : pointC (1/100) exSys "v" (some ⟨-3 + 1/128, 0, 0⟩) none none false (some 0) {} = .error .value := by decide +kernel
+example : pointC (1/100) exSys "v" (some ⟨-3 + 1/128, 0, 0⟩) none none false none {} = vacancy exSys none (some 0) false 0 := by decide +kernel
+example : pointC (1/100) exSys "v" (some ⟨-3, 0, 0⟩) none none false (some 0) {} = vacancy exSys none (some 0) false 0 := by decide +kernel
+example : interstitialC (1/100) exSys ⟨1 + 1/128, 0, 0⟩ false none {} = .error .value := by decide +kernel
+example : (interstitialC (1/100) exSys ⟨1 + 1/128, 0, 0⟩ false (some 0) {}).isOk = true := by decide +kernel
+-- masses are handed on
+example : (vacancy exSys none (some 0) false (1/100)).toOption.map (·.masses) = some [some 27, none] := by decide +kernel
 
 /-- the hypotheses of `pos_eq_index_selection` are met by a concrete system: atom 0 of `exSys` seen
     through the image one cell along -x. -/
